@@ -24,6 +24,7 @@ ASSUMPTIONS = ["XLA thread configuration and platform are held fixed between twi
 TIERS = {"quick": {"runs": 48}, "thorough": {"runs": 480}}
 REQUIRED = ["twin_pairs_equal", "different_seed_differs"]
 REQUIRED_QUICK = REQUIRED
+CHUNK = 24  # TrainSim plans per fresh worker process
 SHRINK_LISTS = []
 SHRINK_INTS = []
 DIGEST_STABLE = False  # the violation class must reproduce in a fresh process, the twin digests need not
